@@ -712,30 +712,59 @@ func completionAgree(p *core.Prog, r *core.Result, sp *ssa.Package, ctxNamed *ty
 				r.Undecided(".COMPLETION-PROPAGATES", "gotype.(*unfoldCtx)."+pr[0], "driver method not found")
 				continue
 			}
-			found, inLoop := false, false
-			for _, b := range drv.Blocks {
-				for _, in := range b.Instrs {
-					call, ok := in.(*ssa.Call)
-					if !ok || !call.Common().IsInvoke() || call.Common().Method.Name() != pr[1] {
+			// the notification may sit in the driver or in a method of the driver it delegates to
+			inCycle := func(b *ssa.BasicBlock) bool {
+				seen := map[*ssa.BasicBlock]bool{}
+				work := append([]*ssa.BasicBlock{}, b.Succs...)
+				for len(work) > 0 {
+					x := work[len(work)-1]
+					work = work[:len(work)-1]
+					if seen[x] {
 						continue
 					}
-					found = true
-					seen := map[*ssa.BasicBlock]bool{}
-					work := append([]*ssa.BasicBlock{}, b.Succs...)
-					for len(work) > 0 {
-						x := work[len(work)-1]
-						work = work[:len(work)-1]
-						if seen[x] {
+					seen[x] = true
+					if x == b {
+						return true
+					}
+					work = append(work, x.Succs...)
+				}
+				return false
+			}
+			var search func(f *ssa.Function, depth int) (bool, bool)
+			search = func(f *ssa.Function, depth int) (found, inLoop bool) {
+				for _, b := range f.Blocks {
+					for _, in := range b.Instrs {
+						call, ok := in.(*ssa.Call)
+						if !ok {
 							continue
 						}
-						seen[x] = true
-						if x == b {
-							inLoop = true
+						if call.Common().IsInvoke() {
+							if call.Common().Method.Name() == pr[1] {
+								found = true
+								if inCycle(b) {
+									inLoop = true
+								}
+							}
+							continue
 						}
-						work = append(work, x.Succs...)
+						sc := call.Common().StaticCallee()
+						if sc == nil || depth >= 2 || sc == f || sc.Blocks == nil || sc.Signature.Recv() == nil || f.Signature.Recv() == nil || len(call.Common().Args) == 0 || call.Common().Args[0] != ssa.Value(f.Params[0]) {
+							continue
+						}
+						if namedOf(sc.Signature.Recv().Type()) != namedOf(f.Signature.Recv().Type()) {
+							continue
+						}
+						if fnd, lp := search(sc, depth+1); fnd {
+							found = true
+							if lp || inCycle(b) {
+								inLoop = true
+							}
+						}
 					}
 				}
+				return
 			}
+			found, inLoop := search(drv, 0)
 			key := core.FuncKey(drv)
 			switch {
 			case !found:
